@@ -148,14 +148,14 @@ Definition obj_prop (m : mstate) (index : Z) (k : lclass) (table : list string) 
   let! property_index := int_name pi in
   let! (oid, m2) := pop m1 in
   let! prop := nth_name table property_index in
-  Ok (push m2 (Accessor index (Leaf k (name_of oid) index true) prop)).
+  Ok (push m2 (Accessor index (ObjRef k (name_of oid) index oid) prop)).
 Definition assign_obj_prop (m : mstate) (index : Z) (k : lclass) (table : list string) : result mstate :=
   let! (pi, m1) := pop m in
   let! property_index := int_name pi in
   let! (value, m2) := pop m1 in
   let! (oid, m3) := pop m2 in
   let! prop := nth_name table property_index in
-  Ok (stmt_assign m3 index (Accessor index (Leaf k (name_of oid) index true) prop) value).
+  Ok (stmt_assign m3 index (Accessor index (ObjRef k (name_of oid) index oid) prop) value).
 
 Definition special_props (m : mstate) (index : Z) : result mstate :=
   let! (param, m1) := pop m in
@@ -360,8 +360,8 @@ Definition process (oc : opclass) (p1 p2 : Z) (index : Z) (m : mstate) : result 
     let! (param1, m1) := pop m in
     let! optype := int_name param1 in
     let! (param2, m2) := pop m1 in
-    if optype =? 1 then Ok (push m2 (UStrOp "name" index None (Leaf KMenu (name_of param2) index true)))
-    else if optype =? 2 then Ok (push m2 (UStrOp "number" index None (MenuItemsAcc index (Leaf KMenu (name_of param2) index true))))
+    if optype =? 1 then Ok (push m2 (UStrOp "name" index None (ObjRef KMenu (name_of param2) index param2)))
+    else if optype =? 2 then Ok (push m2 (UStrOp "number" index None (MenuItemsAcc index (ObjRef KMenu (name_of param2) index param2))))
     else Err EOther
   | OMenuitemProps =>
     let! (pi, m1) := pop m in
@@ -369,8 +369,8 @@ Definition process (oc : opclass) (p1 p2 : Z) (index : Z) (m : mstate) : result 
     let! (menu_id, m2) := pop m1 in
     let! (item_id, m3) := pop m2 in
     let! prop := nth_name MENUITEM_PROPERTIES property_index in
-    Ok (push m3 (Accessor index (MenuItemAcc index (Leaf KMenu (name_of menu_id) index true)
-                                               (Leaf KMenuItem (name_of item_id) index true)) prop))
+    Ok (push m3 (Accessor index (MenuItemAcc index (ObjRef KMenu (name_of menu_id) index menu_id)
+                                               (ObjRef KMenuItem (name_of item_id) index item_id)) prop))
   | OAssignMenuitemProps =>
     let! (pi, m1) := pop m in
     let! property_index := int_name pi in
@@ -378,8 +378,8 @@ Definition process (oc : opclass) (p1 p2 : Z) (index : Z) (m : mstate) : result 
     let! (menu_id, m3) := pop m2 in
     let! (item_id, m4) := pop m3 in
     let! prop := nth_name MENUITEM_PROPERTIES property_index in
-    Ok (stmt_assign m4 index (Accessor index (MenuItemAcc index (Leaf KMenu (name_of menu_id) index true)
-                                                            (Leaf KMenuItem (name_of item_id) index true)) prop) value)
+    Ok (stmt_assign m4 index (Accessor index (MenuItemAcc index (ObjRef KMenu (name_of menu_id) index menu_id)
+                                                            (ObjRef KMenuItem (name_of item_id) index item_id)) prop) value)
   | OSoundProps => obj_prop m index KSound SOUND_PROPERTIES
   | OAssignSoundProps => assign_obj_prop m index KSound SOUND_PROPERTIES
   | OSpriteProps => obj_prop m index KSprite SPRITE_PROPERTIES
